@@ -34,7 +34,8 @@ def call(label):
 
 def rest_kinds(p):
     """kinds of the untouched prefix of a context: a mix, so that roots in the rest can alias"""
-    return ['prd' if j % 3 == 0 else ('ext' if j % 3 == 1 else 'cns') for j in range(p)]
+    base = ['prd', 'ext', 'cns']
+    return [base[j] if j < 3 else 'ext' for j in range(p)]
 
 
 def types_for(xtors_T=None, xtors_U=None):
@@ -87,12 +88,25 @@ class Obligation:
         self.extra = {}
 
 
-def mk_pre(env, isa, kinds, temps, roots_extra=()):
-    """symbolic pre-state for a context of the given kinds"""
+def mk_pre(env, isa, kinds, temps, roots_extra=(), fixed=None):
+    """symbolic pre-state for a context of the given kinds; `fixed` maps 'heap' / 'free' / ('fst', position)
+    to a block index (or None for the null pointer): an exhaustive case split makes those pointers concrete"""
     st = core.State(env)
     isa.init_regs(st)
     st.mem = [[z3.BitVec(f"m_{b}_{w}", 64) for w in range(8)] for b in range(env.N)]
     locs = [(Loc(t[0]), Loc(t[1])) for t in temps]
+    for key, b in (fixed or {}).items():
+        val = 0 if b is None else env.baddr(b)
+        if key == 'heap':
+            st.regs[isa.HEAP_REG] = val
+        elif key == 'free':
+            st.regs[isa.FREE_REG] = val
+        else:
+            loc = locs[key[1]][0]
+            if loc.reg is not None:
+                st.regs[loc.reg] = val
+            else:
+                env._stack_init[loc.off] = val
     roots = [locs[j][0].pre(st) for j, k in enumerate(kinds) if k != 'ext'] + list(roots_extra)
     g = heap.pre_ghost(env)
     cs = heap.pre_inv(env, st.mem, st.regs[isa.HEAP_REG], st.regs[isa.FREE_REG], roots, g)
@@ -245,6 +259,18 @@ def request_for(shape):
         stmt = {"k": "create", "var": var(len(kinds)), "ty": "U",
                 "context": [binding(p + i, a) for i, a in enumerate(envk)], "clauses": cl, "next": call("k")}
         return ctx, types_for(xtors_U=xt), stmt, dict(kinds=kinds, kinds2=rest_kinds(p) + ['cns'])
+    if k == 'method':
+        # the code of method i of a closure: entered with the destructor's arguments, then the closure
+        envk = list(shape['env'])
+        methods = shape['methods']
+        i = shape['i']
+        xt = [(f"D{j}", c) for j, c in enumerate(methods)]
+        cl = [{"xtor": f"D{j}", "context": [binding(jj, a) for jj, a in enumerate(c)], "body": call(f"m{j}")}
+              for j, c in enumerate(methods)]
+        ctx = [binding(50 + j, a) for j, a in enumerate(envk)]
+        stmt = {"k": "create", "var": var(90), "ty": "U", "context": ctx, "clauses": cl, "next": call("k")}
+        kinds = list(methods[i]) + ['cns']
+        return ctx, types_for(xtors_U=xt), stmt, dict(kinds=kinds)
     if k == 'invoke':
         # context = arguments then closure
         nd, pos = shape.get('ndtors', 2), shape.get('tagpos', 1)
@@ -309,7 +335,10 @@ def _build(isa, e0, shape, N, sp_class, ob, info):
     env = core.Env(isa, N, sp_class=sp_class)
     maxn = max(len(kinds), len(info.get('kinds2', kinds))) + 12
     temps = _tempmap(e0, isa, maxn)
-    st0, locs, g, cs = mk_pre(env, isa, kinds, temps)
+    fixed = {}
+    for key, b in (shape.get('split') or {}).items():
+        fixed[key if key in ('heap', 'free') else ('fst', int(key))] = b
+    st0, locs, g, cs = mk_pre(env, isa, kinds, temps, fixed=fixed)
     ob.assume += cs
     pre = st0.copy()
     n = len(kinds)
@@ -328,6 +357,23 @@ def _build(isa, e0, shape, N, sp_class, ob, info):
     ob.assume.append(z3.ULE(z3.ZeroExt(4, g.F) + acquisitions, z3.BitVecVal(N - 1, 8)))
 
     # ---- typing facts of the pre-state
+    entry = 0
+    if k == 'method':
+        cands = [nm for nm in prog.labels if (nm + '_D0') in prog.labels]
+        if len(cands) != 1:
+            raise LoadError(f"cannot identify the method table label among {sorted(prog.labels)}")
+        T = cands[0]
+        if len(shape['methods']) > 1:
+            if T not in prog.tables or len(prog.tables[T]) != len(shape['methods']):
+                raise LoadError(f"method table {T} does not consist of {len(shape['methods'])} fixed-size jumps")
+            entry = prog.tables[T][shape['i']]
+        else:
+            entry = prog.labels[T]
+        ob.extra['entry'] = entry
+        p = len(kinds) - 1
+        tcs, ptrs = heap.chain_typing(env, pre.mem, g, fst_pre(p), shape['env'])
+        ob.assume += tcs
+        chains = {shape['i']: ptrs}
     if k == 'switch':
         p = shape['p']
         tag = snd_pre(p)
@@ -341,7 +387,7 @@ def _build(isa, e0, shape, N, sp_class, ob, info):
         TBL = z3.BitVec('TBL', 64)
         ob.assume.append(bv(snd_pre(n - 1)) == TBL)
 
-    exits = core.run(prog, st0, entry=0)
+    exits = core.run(prog, st0, entry=entry)
     ob.assume += core.layout_assumptions(prog, env)
     ob.fault = env.fault_term()
     ob.fault_reasons = [r for r, _ in env.faults]
@@ -375,7 +421,11 @@ def _build(isa, e0, shape, N, sp_class, ob, info):
         a = snd_pre(shape['a'])
         b = snd_pre(shape['b']) if shape.get('b') is not None else 0
         c = bb(CMP[shape['sort']](a, b))
+        same_operand = shape.get('b') is not None and shape['a'] == shape['b']
+        holds = shape['sort'] in ('eq', 'le', 'ge')
         for lab, want in (('then_', c), ('else_', z3.Not(c))):
+            if same_operand and (lab == 'then_') != holds:
+                continue    # comparing a variable with itself: the other branch must be unreachable
             st = exits.get(lab)
             if st is not None:
                 gl = common_exit_goals(st) + [("branch", want)]
@@ -451,9 +501,11 @@ def _build(isa, e0, shape, N, sp_class, ob, info):
             if k == 'let':
                 gl.append(("tag", bb(eq(xs, stride * shape.get('tagpos', 1)))))
             else:
-                tbls = [nm for nm in prog.tables] or [nm for nm in prog.labels if prog.canon[nm] == nm]
-                # the table label is the first label of the text
-                first = min(prog.labels, key=lambda nm: prog.labels[nm])
+                # the table label is the one the method labels are derived from (T, T_D0, T_D1, ...)
+                cands = [nm for nm in prog.labels if (nm + '_D0') in prog.labels]
+                if len(cands) != 1:
+                    raise LoadError(f"cannot identify the method table label among {sorted(prog.labels)}")
+                first = cands[0]
                 gl.append(("table", bb(eq(xs, env.label_addr(prog.canon[first])))))
                 ob.extra['table_label'] = first
             blocks = heap.chain_layout(args)
@@ -490,20 +542,32 @@ def _build(isa, e0, shape, N, sp_class, ob, info):
                     ptrs.append(ptr)
                     if j + 1 < len(blocks):
                         ptr = heap.select_word(env, ptr, st.mem, 6)
-            ig, pg = post_inv_goals(env, isa, pre, st, g, kinds2, locs, lay2, tail2, acquisitions)
+            live2 = None
+            if acquisitions == 1:
+                newp = bv(ptrs[0])
+                live2 = [z3.Or(newp == bv(env.baddr(b)),
+                               z3.And(g.live[b], z3.Not(z3.And(g.nLIN == 1, g.deff[b], g.dpos[b] == g.nDEF - 1))))
+                         for b in range(N)]
+            elif acquisitions == 0:
+                live2 = g.live
+            ig, pg = post_inv_goals(env, isa, pre, st, g, kinds2, locs, lay2, tail2, acquisitions, live2=live2)
             gl += ig
             gl.append(("no_call", z3.BoolVal(len(st.events) == 0)))
             expected['k_'] = (st, gl)
-    elif k == 'switch':
-        p = shape['p']
-        for i, c in enumerate(shape['clauses']):
-            lab = f"c{i}_"
+    elif k in ('switch', 'method'):
+        if k == 'switch':
+            p = shape['p']
+            todo = [(i, c, f"c{i}_") for i, c in enumerate(shape['clauses'])]
+        else:
+            p = len(kinds) - 1
+            todo = [(shape['i'], shape['env'], f"m{shape['i']}_")]
+        for i, c, lab in todo:
             st = exits.get(lab)
             if st is None:
                 continue
-            kinds2 = rest_kinds(p) + list(c)
+            kinds2 = kinds[:p] + list(c)
             gl = common_exit_goals(st)
-            if len(shape['clauses']) > 1:
+            if k == 'switch' and len(shape['clauses']) > 1:
                 gl.append(("dispatch", bv(snd_pre(p)) == stride * i))
             gl += preserved_goals(pre, st, locs, kinds, range(p))
             blocks = heap.chain_layout(c)
@@ -518,18 +582,26 @@ def _build(isa, e0, shape, N, sp_class, ob, info):
                     gl.append((f"load.snd[{e[1]}]", bb(eq(locs[a][1].post(st), w2))))
                     if c[e[1]] != 'ext':
                         gl.append((f"load.fst[{e[1]}]", bb(eq(locs[a][0].post(st), w1))))
-            ig, pg = post_inv_goals(env, isa, pre, st, g, kinds2, locs, g.lay, g.tail, 0)
+            if blocks:
+                hdr0 = heap.select_word(env, ptrs[0], pre.mem, 0)
+                live2 = [z3.And(g.live[b], z3.Not(z3.And(bv(hdr0) == 0, z3.Or(*[bv(q) == bv(env.baddr(b)) for q in ptrs]))))
+                         for b in range(N)]
+            else:
+                live2 = g.live
+            ig, pg = post_inv_goals(env, isa, pre, st, g, kinds2, locs, g.lay, g.tail, 0, live2=live2)
             gl += ig
             gl.append(("frontier.unchanged", pg.F == g.F))
             gl.append(("no_call", z3.BoolVal(len(st.events) == 0)))
             expected[lab] = (st, gl)
-        ob.extra['must_reach'] = [f"c{i}_" for i in range(len(shape['clauses']))]
     else:
         raise LoadError(f"no spec for {k}")
 
     want = {'lit': ['k_'], 'op': ['k_'], 'ifc': ['then_', 'else_'], 'print': ['k_'], 'exit': ['cleanup'],
             'call': ['f_'], 'invoke': ['<computed>'], 'substitute': ['k_'], 'let': ['k_'], 'create': ['k_'],
-            'switch': [f"c{i}_" for i in range(len(shape.get('clauses', [])))]}[k]
+            'switch': [f"c{i}_" for i in range(len(shape.get('clauses', [])))],
+            'method': [f"m{shape.get('i')}_"]}[k]
+    if k == 'ifc' and shape.get('b') is not None and shape['a'] == shape['b']:
+        want = ['then_' if shape['sort'] in ('eq', 'le', 'ge') else 'else_']
     for lab in want:
         if lab not in expected:
             raise LoadError(f"expected exit {lab} is never reached syntactically (exits: {sorted(exits)})")
